@@ -3,6 +3,7 @@ package main
 import (
 	"fmt"
 	"go/types"
+	"sort"
 	"strings"
 
 	"golang.org/x/tools/go/ssa"
@@ -140,7 +141,12 @@ func verify(c *Ctx, fn *ssa.Function, fc *FuncContract, commutes bool) {
 		}
 	}
 	// structural vacuity: every annotated loop must exist
+	var ords []int
 	for ord := range fc.LoopInv {
+		ords = append(ords, ord)
+	}
+	sort.Ints(ords)
+	for _, ord := range ords {
 		if ord > fr.nLoops {
 			fr.oblige(st, fmt.Sprintf("contract.missing_loop%d", ord), "false", fn.Pos())
 		}
